@@ -443,6 +443,15 @@ func RunHistory(h History, bin string, orc Oracles) (*Observation, error) {
 			modelMin.CacheFault()
 			obs.Log = append(obs.Log, fmt.Sprintf("#%d wipe cas + workspace outputs", i))
 			obs.Classes["fault:wipe-cas"] = true
+		case st.Kind == "perturb-clean":
+			// a fresh checkout on a warm cache: every build product is gone, the cache is untouched
+			sb.WipeOutputs(w)
+			if sbMin != nil {
+				sbMin.WipeOutputs(w)
+			}
+			obs.Log = append(obs.Log, fmt.Sprintf("#%d remove every build product from the workspace", i))
+			obs.Classes[st.Kind] = true
+			perturbedSinceBuild = true
 		case strings.HasPrefix(st.Kind, "perturb-"):
 			if sbMin != nil {
 				_ = sbMin.Perturb(&w, st) // the same workspace perturbation in the minimal-mode sandbox
